@@ -22,20 +22,44 @@ def _snap(pop):
     return [(copy.deepcopy(a.position), a.cost, a.fitness) for a in pop]
 
 
+def _aux(self):
+    """algorithm-private observables for the refinement modules of spec/AlgoRel.tla (read-only)"""
+    n = type(self).__mro__[1].__name__
+    try:
+        if n == "GreyWolfOptimization":
+            return {"leaders": [(copy.deepcopy(w.position), w.cost) for w in
+                                (self._GreyWolfOptimization__alpha_wolf, self._GreyWolfOptimization__beta_wolf, self._GreyWolfOptimization__gamma_wolf)]}
+        if n == "ParticleSwarmOptimization":
+            return {"pbest": [(copy.deepcopy(a.position), a.cost) for a in self._ParticleSwarmOptimization__pbest]}
+        if n == "BeeColonyOptimization":
+            return {"trials": [int(a.trials) for a in self._population], "limit": int(self._config.scouting_limit)}
+    except Exception as ex:      # an observation must never disturb the run
+        return {"aux_error": type(ex).__name__}
+    return None
+
+
 def _make(base):
     def _init_population(self):
         self._vsnaps = []
         self._vsteps = 0
+        self._vcyc = []          # _current_cycle seen at the start of every optimization_step
+        self._vlead = []         # _best_agent (position, cost) seen at the start of every optimization_step
+        self._vaux = []
         REC.phase = 0
         base._init_population(self)
         self._vsnaps.append(_snap(self._population))
         REC.phase = 1
+        self._vaux.append(None)
 
     def optimization_step(self):
         self._vsteps += 1
         REC.phase = self._vsteps
+        self._vcyc.append(int(self._current_cycle))
+        b = self._best_agent
+        self._vlead.append((copy.deepcopy(b.position), b.cost) if b is not None else None)
         base.optimization_step(self)
         self._vsnaps.append(_snap(self._population))
+        self._vaux.append(_aux(self))
 
     return type("Traced_" + base.__name__, (base,), {"_init_population": _init_population,
                                                      "optimization_step": optimization_step, "__module__": __name__})
